@@ -289,6 +289,8 @@ func newGasEnv(t testing.TB, cfg gasEnvCfg) *gasEnv {
 	}
 	g.signers["alpha"] = g.alphaMulti
 	g.signers["committee"] = e.Committee
+	// "half": floor(n/2)-of-n (at least 1) multi-signature of the committee, below both thresholds for n >= 2
+	g.signers["half"] = multisigOf(max(1, cfg.NC/2), ks)
 	g.signers["validator"] = e.Validator
 	if len(g.alpha) > 0 {
 		g.fsAlphaMulti = multisigOf(len(g.alpha)*2/3+1, g.alpha)
@@ -1027,11 +1029,15 @@ func (gg *gasGen) alphaSigners() []string {
 	r := gg.r
 	g := gg.g
 	if !g.cfg.NotaryOff {
-		switch r.Intn(8) {
+		switch r.Intn(10) {
 		case 0:
 			return []string{gg.uname(r.Intn(3))}
 		case 1:
-			return []string{"C0"}
+			return []string{fmt.Sprintf("C%d", r.Intn(g.cfg.NC))}
+		case 2, 3:
+			return []string{"committee"} // n/2+1: not the Alphabet unless the thresholds coincide
+		case 4:
+			return []string{"half"}
 		default:
 			return []string{"alpha"}
 		}
@@ -1168,6 +1174,10 @@ func (gg *gasGen) next(step int) gasOp {
 		if r.Intn(25) == 0 {
 			op.From = g.users[u].PublicKey().Bytes()
 		}
+		if r.Intn(12) == 0 {
+			// somebody else's account named by a stranger: the contracts themselves
+			op.From = gg.contractTarget()
+		}
 		return op
 	case w < 76: // cheque
 		nb := gg.balOf(g.neofs.BytesBE())
@@ -1300,8 +1310,10 @@ func gasRandomCfg(r *rand.Rand, thorough bool) gasEnvCfg {
 	case 0:
 		c.NC = 4
 	case 1:
+		// committees where n/2+1 < 2n/3+1
+		c.NC = []int{3, 6}[r.Intn(2)]
 		if thorough {
-			c.NC = []int{2, 3, 5, 7}[r.Intn(4)]
+			c.NC = []int{2, 3, 5, 6, 7}[r.Intn(5)]
 		}
 	}
 	c.NotaryOff = r.Intn(5) < 2
@@ -1560,6 +1572,61 @@ func gasCorpus(thorough bool) []gasCorpusEntry {
 	}
 	out = append(out, gasCorpusEntry{"alphabet-change-nonotary", gasEnvCfg{NC: 1, NotaryOff: true, NAlpha: 1, WFee: i64p(13), CFee: i64p(1), IR: 1, AlphaIdx: []int64{0}}, alphaChange})
 	out = append(out, gasCorpusEntry{"alphabet-change-notary", gasEnvCfg{NC: 4, NAlpha: 2, WFee: i64p(13), CFee: i64p(1), IR: 1, AlphaIdx: []int64{0}}, alphaChange})
+	// Notary mode on committees where n/2+1 < 2n/3+1: every Alphabet-gated path
+	// with the Alphabet account, the committee majority, a smaller
+	// multi-signature, a single member and a stranger
+	gated := func(g *gasEnv) []gasOp {
+		N := g.neofs.BytesBE()
+		ops := []gasOp{{Kind: "gasTransfer", From: u(g, 0), To: N, Amount: bn(1000_0000), Data: null, Signers: []string{"U0"}}}
+		sets := []string{"committee", "half", "C0", fmt.Sprintf("C%d", g.cfg.NC-1), "U0", "fsalpha", "alpha"}
+		for i, sg := range sets {
+			ops = append(ops,
+				gasOp{Kind: "cheque", ID: []byte{0x40, byte(i)}, To: u(g, 3), Amount: bn(7), Lock: []byte{1}, Signers: []string{sg}},
+				gasOp{Kind: "setConfig", ID: []byte{0x41, byte(i)}, Key: []byte("WithdrawFee"), Val: le(int64(20 + i)), Signers: []string{sg}},
+				gasOp{Kind: "withdraw", From: u(g, 0), Amount: bn(1), Signers: []string{"U0"}}, // the fee in force
+				gasOp{Kind: "setConfig", ID: []byte{0x42, byte(i)}, Key: []byte("InnerRingCandidateFee"), Val: le(int64(30 + i)), Signers: []string{sg}},
+				gasOp{Kind: "alphabetUpdate", ID: []byte{0x43, byte(i)}, Keys: [][]byte{g.alphaPool[i%7].PublicKey().Bytes()}, Signers: []string{sg}},
+				gasOp{Kind: "candRemove", Key: g.users[1].PublicKey().Bytes(), Signers: []string{sg}},
+				gasOp{Kind: "verify", To: g.proxy.BytesBE(), Signers: []string{sg}},
+				gasOp{Kind: "verify", To: g.alphabets[0].BytesBE(), Signers: []string{sg}},
+				gasOp{Kind: "verify", To: g.processing.BytesBE(), Signers: []string{sg}},
+				gasOp{Kind: "emit", To: g.alphabets[0].BytesBE(), Signers: []string{sg}})
+		}
+		return ops
+	}
+	gatedSizes := []int{3, 6}
+	if thorough {
+		gatedSizes = []int{2, 3, 5, 6, 7}
+	}
+	for _, n := range gatedSizes {
+		out = append(out, gasCorpusEntry{fmt.Sprintf("alphabet-gated-committee%d", n),
+			gasEnvCfg{NC: n, WFee: i64p(7), CFee: i64p(11), IR: 2, AlphaIdx: []int64{0}, FundAlpha: 1000}, gated})
+	}
+	// an account argument that is a contract's own hash, named by a stranger:
+	// native GAS asks no witness when `from` is the calling contract, so the
+	// methods themselves must; nothing may move
+	ownHash := func(g *gasEnv) []gasOp {
+		N := g.neofs.BytesBE()
+		accts := [][]byte{N, g.processing.BytesBE(), g.proxy.BytesBE(), g.alphabets[0].BytesBE(), g.accept.BytesBE(), g.token.BytesBE()}
+		ops := []gasOp{{Kind: "gasTransfer", From: u(g, 0), To: N, Amount: bn(1000_0000), Data: null, Signers: []string{"U0"}}}
+		for _, a := range accts[1:5] {
+			ops = append(ops, gasOp{Kind: "gasTransfer", From: u(g, 0), To: a, Amount: bn(1000_0000), Data: null, Signers: []string{"U0"}})
+		}
+		for _, a := range accts {
+			for _, sg := range []string{"U0", "U3"} {
+				ops = append(ops,
+					gasOp{Kind: "withdraw", From: a, Amount: bn(5), Signers: []string{sg}},
+					gasOp{Kind: "withdraw", From: a, Amount: bn(0), Signers: []string{sg}},
+					gasOp{Kind: "gasTransfer", From: a, To: u(g, 3), Amount: bn(5), Data: null, Signers: []string{sg}},
+					gasOp{Kind: "gasTransfer", From: a, To: N, Amount: bn(5), Data: null, Signers: []string{sg}},
+					gasOp{Kind: "bind", From: a, Keys: [][]byte{g.users[0].PublicKey().Bytes()}, Signers: []string{sg}},
+					gasOp{Kind: "unbind", From: a, Keys: [][]byte{g.users[0].PublicKey().Bytes()}, Signers: []string{sg}})
+			}
+		}
+		return ops
+	}
+	out = append(out, gasCorpusEntry{"own-hash-accounts-notary", gasEnvCfg{NC: 1, WFee: i64p(7), CFee: i64p(11), IR: 1, AlphaIdx: []int64{0}}, ownHash})
+	out = append(out, gasCorpusEntry{"own-hash-accounts-nonotary", gasEnvCfg{NC: 1, NotaryOff: true, NAlpha: 2, WFee: i64p(7), CFee: i64p(11), IR: 1, AlphaIdx: []int64{0}}, ownHash})
 	// accept-only is a function of the CALLER alone (NeoFS: plus the marker):
 	// every receiver x every caller kind x every claimed sender x data shapes
 	out = append(out, gasCorpusEntry{"accept-only-from", gasEnvCfg{NC: 1, WFee: i64p(7), CFee: i64p(11), IR: 1, AlphaIdx: []int64{0}},
@@ -1986,6 +2053,9 @@ func (m *gasMon) step(op gasOp, o gasObs) {
 		}
 		want := len(op.From) == 20 && m.inWit(o, op.From) && op.Amount.Sign() >= 0 && op.Amount.Cmp(bn(9000)) <= 0 &&
 			feeOK && fee.Sign() >= 0 && keysOK && m.balOf(op.From).Cmp(total) >= 0
+		if o.halt && !(len(op.From) == 20 && m.inWit(o, op.From)) {
+			m.violate(fmt.Sprintf("%s: withdraw halted without the witness of the account it charges (%s), signers %v: %s", what, m.kindOf(op.From), op.Signers, op.String()))
+		}
 		mustHalt(want, "withdraw preconditions (witness, 0<=amount<=9000, fee configured and affordable)")
 		if o.halt && want {
 			checkEvs = true
@@ -2012,6 +2082,9 @@ func (m *gasMon) step(op gasOp, o gasObs) {
 		payable := len(op.To) == 20 && op.Amount.Sign() >= 0 && m.balOf(N).Cmp(op.Amount) >= 0 && acc
 		if !g.cfg.NotaryOff {
 			auth := m.inWit(o, g.alphaMulti.ScriptHash().BytesBE())
+			if o.halt && !auth {
+				m.violate(fmt.Sprintf("%s: cheque paid without the witness of the Alphabet (2n/3+1 of the %d committee keys), signers %v: %s", what, g.cfg.NC, op.Signers, op.String()))
+			}
 			mustHalt(auth && payable, "cheque needs the Alphabet multi-signature and a payable amount")
 			if o.halt && auth && payable {
 				payout()
@@ -2183,7 +2256,28 @@ func (m *gasMon) step(op gasOp, o gasObs) {
 		if len(o.evs) != 0 {
 			m.violate(what + ": a designation produced GAS/NeoFS notifications")
 		}
-	default: // candRemove bind unbind setConfig alphabetUpdate: never move GAS
+	case "setConfig", "alphabetUpdate":
+		// Alphabet-gated: with Notary the 2n/3+1 account of the committee (NOT
+		// the n/2+1 majority, a smaller multi-signature or a single member),
+		// without Notary a key of the stored Alphabet list
+		auth := m.inWit(o, g.alphaMulti.ScriptHash().BytesBE())
+		if g.cfg.NotaryOff {
+			auth = false
+			for _, k := range m.prev.alpha {
+				if a := m.accOfKey(k); a != nil && m.inWit(o, a) {
+					auth = true
+				}
+			}
+		}
+		if o.halt && !auth {
+			m.violate(fmt.Sprintf("%s: Alphabet-gated method halted without the Alphabet's witness (signers %v): %s", what, op.Signers, op.String()))
+		}
+		for _, e := range o.evs {
+			if e.kind <= 3 {
+				m.violate(what + ": unexpected GAS/Deposit/Withdraw/Cheque notification")
+			}
+		}
+	default: // candRemove bind unbind: never move GAS
 		for _, e := range o.evs {
 			if e.kind == 0 || e.kind == 1 || e.kind == 2 || e.kind == 3 {
 				m.violate(what + ": unexpected GAS/Deposit/Withdraw/Cheque notification")
@@ -2262,7 +2356,7 @@ func TestC19(t *testing.T) {
 		"non-trivial = the history contains at least one accepted GAS movement and at least one refusal/fault; " +
 		"distinct = by deployment configuration + canonical op/outcome/amount/data string"
 	thorough := Tier() == "thorough"
-	nh, minOps, maxOps := 34, 8, 18
+	nh, minOps, maxOps := 30, 8, 18
 	if thorough {
 		nh, minOps, maxOps = 400, 10, 30
 	}
